@@ -2,6 +2,7 @@ import Ldlm.Driver.Codec
 import Ldlm.Driver.Seq
 import Ldlm.Driver.Rest
 import Ldlm.Driver.Client
+import Ldlm.Driver.Lin
 
 def main (args : List String) : IO UInt32 := do
   match args with
@@ -9,4 +10,6 @@ def main (args : List String) : IO UInt32 := do
   | ["seq"] => Ldlm.Driver.seqMain; return 0
   | ["rest"] => Ldlm.Driver.restMain; return 0
   | ["client"] => Ldlm.Driver.clientMain; return 0
+  | ["linlease"] => Ldlm.Driver.linLeaseMain; return 0
+  | ["linsess"] => Ldlm.Driver.linSessMain; return 0
   | _ => IO.eprintln "usage: driver (codec|seq|conc) ..."; return 2
